@@ -32,6 +32,7 @@ func init() {
 			ruleSearchTriesEverySibling(c, "R6", []*ssa.Function{c.A.TreeURL}, "strict URL building succeeds for every live route: the route lookup tries every sibling")
 			ruleReadersWriteNothing(c, "R10", "tree", "router")
 			rulePatternsEnterThroughTheParser(c, "R11")
+			ruleCharClasses(c, "R12", "syntax.MatchDigit", "syntax.MatchWord")
 		},
 	})
 }
@@ -415,22 +416,8 @@ func ruleStrictReachesValidator(c *Ctx, rule string) {
 		o.Path = c.P.PathString(path)
 	}
 	// the domain is prefixed on every path
-	dom := (&an.Query{
-		Target: func(in ssa.Instruction) bool { r, ok := in.(*ssa.Return); return ok && an.IsSuccessReturn(r) },
-		Block: func(in ssa.Instruction) bool {
-			call, ok := isBufWrite(in)
-			return ok && len(call.Args) > 1 && an.AP(call.Args[1]) == "recv.urlDomain"
-		},
-		BlockEdge: func(b *ssa.BasicBlock, succ int) bool {
-			cond, onTrue := an.EdgeCond(b, succ)
-			if cond == nil {
-				return false
-			}
-			x, k, eq, ok := an.CondAtom(cond)
-			return ok && an.AP(x) == "recv.urlDomain" && an.ConstKey(k) == `""` && eq == onTrue
-		},
-	}).Search(an.Entry(f))
-	c.R.Add("R4", c.fk(f), "domain-prefixed", c.P.Pos(f.Pos()), dom == nil, ifelse(dom == nil, "every successful path writes the configured domain first (or it is empty)", "a URL can be returned without the configured domain"))
+	domOK := prefixesDomain(c, f, "recv.urlDomain", 0)
+	c.R.Add("R4", c.fk(f), "domain-prefixed", c.P.Pos(f.Pos()), domOK, ifelse(domOK, "every successful path writes the configured domain first (or returns a string that begins with it, or it is empty)", "a URL can be returned without the configured domain"))
 }
 
 // ruleMissingParamFails is C10.R4.
@@ -695,4 +682,83 @@ func ruleStrictLiveness(c *Ctx, rule string) {
 			o.Path = c.P.PathString(path)
 		}
 	}
+}
+
+// prefixesDomain: every successful return of f yields a string that begins with the value whose access path is
+// domAP — the builder received it first, the returned expression is domain + …, the domain is known to be empty on
+// that path, or the result is that of a module helper which does the same with the parameter the domain is handed to.
+func prefixesDomain(c *Ctx, f *ssa.Function, domAP string, depth int) bool {
+	if depth > 2 || len(f.Blocks) == 0 {
+		return false
+	}
+	wrote := func(in ssa.Instruction) bool {
+		call, ok := isBufWrite(in)
+		return ok && len(call.Args) > 1 && an.AP(call.Args[1]) == domAP
+	}
+	emptyEdge := func(b *ssa.BasicBlock, succ int) bool {
+		cond, onTrue := an.EdgeCond(b, succ)
+		if cond == nil {
+			return false
+		}
+		x, k, eq, ok := an.CondAtom(cond)
+		return ok && an.AP(x) == domAP && an.ConstKey(k) == `""` && eq == onTrue
+	}
+	var begins func(v ssa.Value, d int) bool
+	begins = func(v ssa.Value, d int) bool {
+		if d > 3 {
+			return false
+		}
+		if an.AP(v) == domAP {
+			return true
+		}
+		switch x := v.(type) {
+		case *ssa.BinOp:
+			return x.Op == token.ADD && begins(x.X, d+1)
+		case *ssa.Phi:
+			for _, e := range x.Edges {
+				if !begins(e, d+1) {
+					return false
+				}
+			}
+			return len(x.Edges) > 0
+		case *ssa.Extract:
+			if call, ok := x.Tuple.(*ssa.Call); ok && x.Index == 0 {
+				return beginsCall(c, call, domAP, depth)
+			}
+		case *ssa.Call:
+			return beginsCall(c, x, domAP, depth)
+		}
+		return false
+	}
+	for _, r := range an.Returns(f) {
+		r := r
+		if !an.IsSuccessReturn(r) || len(r.Results) == 0 {
+			continue
+		}
+		if begins(an.ReturnValue(r, 0), 0) {
+			continue
+		}
+		path := (&an.Query{
+			Target:    func(in ssa.Instruction) bool { return in == ssa.Instruction(r) },
+			Block:     wrote,
+			BlockEdge: emptyEdge,
+		}).Search(an.Entry(f))
+		if path != nil {
+			return false
+		}
+	}
+	return true
+}
+
+func beginsCall(c *Ctx, call *ssa.Call, domAP string, depth int) bool {
+	g := an.StaticCallee(&call.Call)
+	if g == nil || !an.InModule(g) {
+		return false
+	}
+	for i, a := range an.CallArgs(&call.Call) {
+		if an.AP(a) == domAP && i < len(g.Params) {
+			return prefixesDomain(c, an.Origin(g), an.AP(g.Params[i]), depth+1)
+		}
+	}
+	return false
 }
